@@ -445,6 +445,7 @@ func (m *Manager) acquireTasks(envId uid.ID, taskDescriptors Descriptors) (err e
 					} else { // task not claimed yet, we do so now
 						tasksAlreadyRunning[taskPtr] = descriptor
 						claimed = true
+						verifhook.Point("task.acquire.claim", "task", taskPtr.taskId, "env", envId.String(), "class", taskPtr.className)
 						detector := ""
 						parent := taskPtr.GetParent()
 						if parent != nil {
@@ -604,6 +605,7 @@ func (m *Manager) acquireTasks(envId uid.ID, taskDescriptors Descriptors) (err e
 			log.WithField("partition", envId).
 				WithField("level", infologger.IL_Devel).
 				Errorf("Deployment failed %d/%d attempts. Check messages in IL to figure out why. Retrying...", attemptCount+1, MAX_ATTEMPTS_PER_DEPLOY_REQUEST)
+			verifhook.Point("task.acquire.retry", "env", envId.String(), "attempt", attemptCount+1, "deployed", len(deployedTasks))
 			time.Sleep(time.Second * SLEEP_LENGTH_BETWEEN_PER_DEPLOY_REQUESTS)
 		}
 	}
@@ -1130,6 +1132,11 @@ func (m *Manager) Cleanup() (killed Tasks, running Tasks, err error) {
 		return !t.IsLocked()
 	})
 
+	if verifhook.Enabled {
+		for _, t := range toKill {
+			verifhook.Point("task.kill.select", "task", t.taskId, "who", "cleanup", "active", t.status == ACTIVE)
+		}
+	}
 	killed, running, err = m.doKillTasks(toKill)
 	return
 }
@@ -1170,6 +1177,11 @@ func (m *Manager) KillTasks(taskIds []string) (killed Tasks, running Tasks, err 
 		}
 	}
 
+	if verifhook.Enabled {
+		for _, t := range toKill {
+			verifhook.Point("task.kill.select", "task", t.taskId, "who", "killtasks", "active", t.status == ACTIVE)
+		}
+	}
 	killed, running, err = m.doKillTasks(toKill)
 	m.killTasksMu.Unlock()
 
